@@ -25,7 +25,7 @@ from . import c02, c05
 LEVEL = "model_checking"
 IARF = {"ignore": 0, "add": 1, "remove": 2, "force": 3}
 NAME = {v: k for k, v in IARF.items()}
-LEXLANG = {"C": "C", "CPP": "CPP", "OC": "OC", "JAVA": "JAVA"}
+LEXLANG = {"C": "C", "CPP": "CPP", "OC": "OC", "JAVA": "JAVA", "CS": "CS", "D": "D", "VALA": "VALA"}
 WORDLIKE = re.compile(rb"^[A-Za-z0-9_$\x80-\xff.'\"]")
 
 
@@ -164,7 +164,7 @@ def programs(quick):
             progs.append(("decl:" + n, lang, s))
     for n, s in cgen.pp_units():
         progs.append(("pp:" + n, "C", s))
-    for name, lang, src in skel.all_skeletons(("C", "CPP", "OC", "JAVA")):
+    for name, lang, src in skel.all_skeletons(tuple(LEXLANG)):
         progs.append(("skel:" + name, lang, src))
     for pr in c02.stmt_programs(1 if quick else 2):
         progs.append((pr[0], "C", pr[1]))
